@@ -348,6 +348,17 @@ var nilHosts = []nilHost{
 	{"Collection.items[i]", func(it vocab.Item) vocab.Item {
 		return &vocab.Collection{ID: "https://example.com/h", Type: vocab.CollectionType, Items: vocab.ItemCollection{it, vocab.IRI("https://example.com/m1")}}
 	}},
+	{"Object.tag[9 of 12]", func(it vocab.Item) vocab.Item {
+		l := vocab.ItemCollection{}
+		for i := 0; i < 12; i++ {
+			if i == 9 {
+				l = append(l, it)
+			} else {
+				l = append(l, vocab.IRI(fmt.Sprintf("https://example.com/t/%d", i)))
+			}
+		}
+		return &vocab.Object{ID: "https://example.com/h", Type: vocab.NoteType, Tag: l, To: append(vocab.ItemCollection{}, l...)}
+	}},
 	{"Object.attachment", func(it vocab.Item) vocab.Item {
 		return &vocab.Object{ID: "https://example.com/h", Type: vocab.NoteType, Attachment: it, AttributedTo: it, Replies: it, URL: it}
 	}},
